@@ -11,6 +11,7 @@ const ruleText = "A case is a history of syncs of one publisher on one fresh Sub
 	"Worlds: plain (external HTTP server, no libp2p-HTTP discovery) with address lists [a], [a,b], [a,dead], [dead,a], [b,a]; legacy (serves no IPNI path) [a], [a,b]; p2phttp (libp2phttp over HTTP through a reverse proxy, discovery) [a], [a,b]; stream (two loopback libp2p hosts) [a], [a,b]. " +
 	"single: every fault kind (500, 404, 403, closed connection, TCP reset / stream reset, corrupt body, truncated body, stalled header, stalled body, context cancellation) at EVERY request index of the sync, for heads 1..4, explicit and announce-triggered, segment depth off/1/2, also with a stop position inside the chain and a pre-stored block; followed by a fault-free retry of the same head (and for a subset a third sync in the other mode). " +
 	"pair-same / pair-seq: two faults in one sync, or in two consecutive syncs, then the retry (thorough: all pairs for heads <= 3, pairs that include a stalled response 1 in 12; quick: a seeded sample). hook: FailSync at every hook call index. disc: the discovery request fails. addrchange: the address list changes between syncs (syncer re-creation, sorted-address quirk). random: seeded histories of 3..6 syncs mixing everything. " +
+	"both: fault-free explicit syncs (heads 1..4, every latest-sync position, every pre-stored subset, segment off/1/2/3) whose observed request log, hook order, store and latest-sync are checked against C04's model AND C01's sync_ad_chain in one Coq checker (both_case_ok). " +
 	"non-trivial = some sync of the history failed AND a later successful sync had to send requests"
 
 type wcfg struct {
@@ -240,6 +241,30 @@ func generate(c *vlib.Ctx) []*Hist {
 		}
 	}
 
+	// ---- fault-free explicit syncs checked against BOTH models (C04's and C01's) in one
+	// Coq checker: every latest-sync position, every pre-stored subset, segment off/1/2/3
+	for head := 1; head <= 4; head++ {
+		for _, wc := range worldCfgs {
+			if wc.name != "one" || (head == 4 && wc.kind != "plain") {
+				continue
+			}
+			for latest := 0; latest <= head; latest++ {
+				for sub := 0; sub < 1<<head; sub++ {
+					var pre []int
+					for b := 0; b < head; b++ {
+						if sub&(1<<b) != 0 {
+							pre = append(pre, b+1)
+						}
+					}
+					for _, seg := range []int{0, 1, 2, 3} {
+						add(&Hist{Fam: "both", Kind: wc.kind, Alive: wc.alive, Cfg: fd.Config{Seg: seg, Latest0: latest, Pre: pre}, Retry: -1, Class: "fault-free",
+							Ops: []fd.Op{mkop("explicit", wc.addrs, head, nil)}})
+					}
+				}
+			}
+		}
+	}
+
 	// ---- pairs
 	rp := c.Rng.Fork("pairs")
 	pairHeads := 3
@@ -262,7 +287,7 @@ func generate(c *vlib.Ctx) []*Hist {
 									// quick: a seeded sample, thinner where stalls make it slow;
 									// thorough: every pair, except that pairs with a stall (each
 									// stall costs the client timeout) are a 1-in-12 sample
-									den := 30
+									den := 40
 									if stall > 0 {
 										den = 400
 									}
